@@ -14,7 +14,7 @@ static sb_t cur_txt;
 
 static void describe(sb_t *o)
 {
-	static char docbuf[1 << 14];
+	static char docbuf[1 << 15];
 	sb_t doc;
 	sb_init_fixed(&doc, docbuf, sizeof docbuf);
 	if (cur_v)
@@ -160,7 +160,7 @@ static void check_tree(V *v)
 			nontriv = 1;
 		mc_outcome(mc_hash(texts[flags].p, texts[flags].n, 0));
 		/* (v) json-c round trip */
-		struct json_tokener *tok = json_tokener_new_ex(128);
+		struct json_tokener *tok = json_tokener_new_ex(256);
 		struct json_object *back = json_tokener_parse_ex(tok, texts[flags].p, (int)texts[flags].n + 1);
 		if (json_tokener_get_error(tok) != json_tokener_success)
 			mc_violation("reparse-fails", "json-c rejects its own output: %s", json_tokener_error_desc(json_tokener_get_error(tok)));
@@ -428,9 +428,82 @@ static void fam_structure(void)
 			}
 }
 
+/* sizes beyond the small families: print-buffer doublings, table growths, deep indentation */
+static void fam_scale(void)
+{
+	cur_fam = "scale-strings";
+	static const int lens[] = {127, 128, 129, 255, 256, 257, 4095, 4096, 4097};
+	static const unsigned char special[] = {'"', '\\', '/', '\n', 0x00, 0x1f, 0x7f, 0xff};
+	static unsigned char big[5000];
+	for (unsigned l = 0; l < sizeof lens / sizeof lens[0]; l++)
+	{
+		int len = lens[l];
+		int poss[6] = {0, 1, len / 2, len - 2, len - 1, 30};
+		for (int pi = 0; pi < 6; pi++)
+			for (unsigned k = 0; k < sizeof special; k++)
+			{
+				if (len > 300 && (k & 1))
+					continue;
+				va_reset();
+				for (int i = 0; i < len; i++)
+					big[i] = (unsigned char)('a' + i % 26);
+				big[poss[pi]] = special[k];
+				check_tree(v_str(big, (size_t)len));
+			}
+	}
+	cur_fam = "scale-containers";
+	static const int counts[] = {11, 12, 22, 33, 43, 65, 129};
+	for (unsigned c = 0; c < sizeof counts / sizeof counts[0]; c++)
+	{
+		va_reset();
+		int n = counts[c];
+		V *a = v_arr((size_t)n);
+		V *o = v_obj((size_t)n);
+		for (int i = 0; i < n; i++)
+		{
+			char k[16];
+			snprintf(k, sizeof k, "key%d/", i);
+			a->items[i] = (i % 7 == 3) ? v_null() : (i % 5 == 1) ? v_strz("s/\"") : (i % 11 == 2) ? v_dbl(i + 0.5) : v_int(0, (uint64_t)i);
+			v_obj_set(o, (size_t)i, k, strlen(k), v_clone(a->items[i]));
+		}
+		check_tree(a);
+		check_tree(o);
+		V *both = v_arr(2);
+		both->items[0] = v_clone(o);
+		both->items[1] = v_clone(a);
+		check_tree(both);
+	}
+	cur_fam = "scale-nesting";
+	for (int depth = 60; depth <= 120; depth += 30)
+		for (int pat = 0; pat < 2; pat++)
+		{
+			va_reset();
+			V *v = v_strz("leaf");
+			for (int i = 0; i < depth; i++)
+			{
+				if (pat == 0 || (i & 1))
+				{
+					V *a = v_arr(2);
+					a->items[0] = v_int(0, (uint64_t)i);
+					a->items[1] = v;
+					v = a;
+				}
+				else
+				{
+					V *o = v_obj(1);
+					v_obj_set(o, 0, "k", 1, v);
+					v = o;
+				}
+			}
+			check_tree(v);
+		}
+}
+
 static void enumerate(void)
 {
 	const char *only = mc_opt("fam", "");
+	if (!*only || !strcmp(only, "scale"))
+		fam_scale();
 	if (!*only || !strcmp(only, "ints"))
 		fam_ints();
 	if (!*only || !strcmp(only, "strings"))
